@@ -1,6 +1,51 @@
 package dag
 
-import "strings"
+import (
+	"errors"
+	"strings"
+)
+
+var errNullListEntry = errors.New("list entries must not be null")
+
+// assertNoNullEntries rejects null entries in the lists of the definition
+// (steps, functions, preconditions). They decode to nil pointers that the
+// builder would otherwise dereference.
+func assertNoNullEntries(def *definition) error {
+	assertConds := func(conds []*conditionDef) error {
+		for _, c := range conds {
+			if c == nil {
+				return errNullListEntry
+			}
+		}
+		return nil
+	}
+	for _, fn := range def.Functions {
+		if fn == nil {
+			return errNullListEntry
+		}
+	}
+	if err := assertConds(def.Preconditions); err != nil {
+		return err
+	}
+	steps := append([]*stepDef{}, def.Steps...)
+	for _, h := range []*stepDef{
+		def.HandlerOn.Exit, def.HandlerOn.Success,
+		def.HandlerOn.Failure, def.HandlerOn.Cancel,
+	} {
+		if h != nil {
+			steps = append(steps, h)
+		}
+	}
+	for _, step := range steps {
+		if step == nil {
+			return errNullListEntry
+		}
+		if err := assertConds(step.Preconditions); err != nil {
+			return err
+		}
+	}
+	return nil
+}
 
 // assertFunctions validates the function definitions.
 func assertFunctions(fns []*funcDef) error {
